@@ -586,7 +586,7 @@ def replay(ctx, obj):
     evaluate(ctx, [c])
 
 
-READY = False
+READY = True
 LEVEL_TEXT = ("Theorems (Coq, every grid size, band, NaN mask, batch size): the scan returns the first index of the maximum with "
               "missing values ignored (maximal, strictly larger than everything before); when some finite in-band density is "
               "positive the peak index lies in the band fmin <= f < fmax and is the first in-band maximiser; frequency, period, "
